@@ -128,3 +128,15 @@ func beat(scenario any) {
 		}()
 	})
 }
+
+// writeStatus writes the status logs of the sessions (lncrun.Session.Stat,
+// each preceded by a reset line) to one NDJSON file.
+func writeStatus(t *testing.T, path string, each func(emit func(trace.Event))) {
+	f, err := os.Create(path)
+	if err != nil {
+		t.Fatal(err)
+	}
+	defer f.Close()
+	enc := json.NewEncoder(f)
+	each(func(e trace.Event) { enc.Encode(e) })
+}
